@@ -96,7 +96,7 @@ class FeatureIDEReader(TextToModel):
 
                 if root_tree.tag == FeatureIDEReader.TAG_AND and parent is not None:
                     if (
-                        FeatureIDEReader.ATTRIB_MANDATORY in child.attrib
+                        child.attrib.get(FeatureIDEReader.ATTRIB_MANDATORY, "false") == "true"
                     ):  # Mandatory feature
                         rel = Relation(
                             parent=parent, children=[feature], card_min=1, card_max=1
